@@ -133,7 +133,7 @@ pub fn run(ctx: &mut Ctx) {
     });
 
     // (b) shape universe
-    let lens_q: Vec<usize> = vec![1, 2, 3, 4, 5, 23, 24, 25, 26, 30, 31, 47, 48, 49, 50, 96, 97, 191, 192, 193, 194, 385, 577];
+    let lens_q: Vec<usize> = vec![1, 2, 3, 4, 5, 23, 24, 25, 26, 30, 31, 47, 48, 49, 50, 96, 97, 191, 192, 193, 194, 385, 577, 1025];
     let mut lens = lens_q.clone();
     if !ctx.quick() {
         lens.extend_from_slice(&[6, 7, 8, 12, 16, 32, 33, 64, 65, 100, 128, 129, 256, 300, 384, 386, 578, 769, 1023, 1024, 1025, 1153, 2049]);
@@ -167,13 +167,16 @@ pub fn run(ctx: &mut Ctx) {
         if hi >= 2 * lo && lo > 24 {
             rec.hit("mul-unbalanced-chunked");
         }
+        if hi > 1024 && lo <= 24 && lo >= 3 {
+            rec.hit("mul-schoolbook-chunked(>1024 x <=24 words)");
+        }
         if a.len == b.len && a.pat == b.pat {
             rec.hit("mul-equal-operands(square shortcut)");
         }
         rec.nontrivial();
         rec.sample(|| format!("{}w:{} * {}w:{}", a.len, a.pat, b.len, b.pat));
     });
-    ctx.require_classes("shape.mul.pairs", &["mul-small-operand<=24(schoolbook)", "mul-small-operand<=192(karatsuba)", "mul-small-operand>192(toom3)", "mul-unbalanced-chunked", "mul-equal-operands(square shortcut)"]);
+    ctx.require_classes("shape.mul.pairs", &["mul-small-operand<=24(schoolbook)", "mul-small-operand<=192(karatsuba)", "mul-small-operand>192(toom3)", "mul-unbalanced-chunked", "mul-schoolbook-chunked(>1024 x <=24 words)", "mul-equal-operands(square shortcut)"]);
 
     // operands equal except one word (must not take the square shortcut wrongly), sqr, cubic
     ctx.sweep("shape.sqr.cubic", ns, |i, rec| {
@@ -211,6 +214,17 @@ pub fn run(ctx: &mut Ctx) {
     bases.push((BigInt::one() << 130) + 12345);
     bases.push((BigInt::from(0xF00Du64) << 200) + (BigInt::one() << 70)); // even, factor 2^70
     bases.push(BigInt::from(shape(5, "lcgA", 0)));
+    // sparse double-word bases 2^k + 2^j + c: intermediate products with zero low/high carry words
+    for k in [64u64, 65, 96, 100, 107, 120, 126, 127] {
+        for low in [BigInt::zero(), BigInt::one(), BigInt::one() << 32u32, BigInt::one() << 63u32, BigInt::from(u64::MAX)] {
+            bases.push((BigInt::one() << k) + low);
+        }
+    }
+    bases.push(BigInt::from(shape(2, "alt", 0)));
+    bases.push(BigInt::from(shape(2, "sparse", 0)));
+    bases.push(BigInt::from(shape(2, "lcgB", 0)));
+    bases.sort();
+    bases.dedup();
     let nb0 = bases.len();
     for k in 0..nb0 {
         let neg = -bases[k].clone();
